@@ -6,6 +6,7 @@ package main
 import (
 	"fmt"
 	"math/rand"
+	"os"
 	"sync"
 
 	"github.com/unixpickle/model3d/model3d"
@@ -23,6 +24,10 @@ var (
 )
 
 func main() {
+	if len(os.Args) > 1 && os.Args[1] == "-c01rectchild" {
+		rectChildMain()
+		return
+	}
 	r := vlib.Start("C01", "exploration")
 	r.Rule("lattice-defined solids (bitmaps over the sampling lattice with an empty outer layer) packed thousands to a meshing call; every pattern block must be a closed oriented manifold by the raw-face topology oracle and have exact winding number 1 at contained lattice points and 0 at excluded ones; quick: all 256 cells, all 2-cell face pairs x3 axes, seeded 18-point edge neighbourhoods and 27-point blocks; thorough: all 2^18 x 3 edge neighbourhoods. 2D: all 16 cells, all pairs, all 3x3 blocks, all 2^16 4x4 bitmaps. Other generators: seeded valid parameters. A case is non-trivial if its pattern is non-empty (distinct by method+pattern hash)")
 	r.Assume("dyadic spacing and origin 0 so that lattice and vertex coordinates are exact")
